@@ -89,7 +89,7 @@ type sidxDriver struct {
 
 func sidxSnapName(e uint64) string { return fmt.Sprintf("%016x.snp", e) }
 
-func openSidx(dir string, freshEpoch uint64, queued bool) driver {
+func openSidx(dir string, freshEpoch uint64, queued, recording bool) driver {
 	d := &sidxDriver{lfs: &queueFS{FileSystem: fs.NewLocalFileSystem()}, dir: dir, queued: queued, epoch: freshEpoch}
 	d.lfs.MkdirIfNotExist(dir, storage.DirPerm)
 	// stand-in for the owner's start-up: newest readable manifest wins, everything else manifest-like is removed
@@ -141,7 +141,7 @@ func openSidx(dir string, freshEpoch uint64, queued bool) driver {
 			d.curPart = id
 		}
 	}
-	d.lfs.capture = true
+	d.lfs.capture = recording // removals are queued only while a history is being recorded
 	return d
 }
 
